@@ -34,9 +34,11 @@ type Meta struct {
 	Cont      int            `json:"cases_with_continuation_input"`
 	Padded    int            `json:"cases_with_padding"`
 	Streams   map[string]int `json:"streams_per_case"`
-	Samples   []CaseJSON     `json:"samples"`
-	Preface   string         `json:"preface_shard,omitempty"`
-	PrefaceN  int            `json:"preface_cases,omitempty"`
+	NonTriv   int            `json:"distinct_nontrivial_frames"`
+	seen      map[string]bool
+	Samples   []CaseJSON `json:"samples"`
+	Preface   string     `json:"preface_shard,omitempty"`
+	PrefaceN  int        `json:"preface_cases,omitempty"`
 }
 
 func (m *Meta) account(name string, ops []Op, c *Case) {
@@ -51,7 +53,34 @@ func (m *Meta) account(name string, ops []Op, c *Case) {
 	}
 	m.Streams[fmt.Sprint(len(ids))]++
 	var blocked, unblocked, neg, split, cont, padded bool
+	if m.seen == nil {
+		m.seen = map[string]bool{}
+	}
 	for _, s := range c.Steps {
+		// a frame is non-trivial when it leaves something queued, releases something that was queued, is
+		// split, completes a continued header block, or is refused; distinct = different frame summary and
+		// different flow-control state after it
+		nt := s.Status != "Ok" || s.In.T == "cont" || (s.In.T == "data" && int(s.In.FLen) != len(s.In.Data))
+		for _, sn := range []Snap{s.SnapC, s.SnapS} {
+			for _, st := range sn.Streams {
+				if len(st.Queue) > 0 || st.Win < 0 {
+					nt = true
+				}
+			}
+		}
+		if (s.In.T == "winupd" || s.In.T == "settings") && (len(firstAppearance(s.ToC)) > 0 || len(firstAppearance(s.ToS)) > 0) {
+			nt = true
+		}
+		if len(s.ToC)+len(s.ToS) > 3 {
+			nt = true
+		}
+		if nt {
+			sig := fmt.Sprintf("%s|%s|%d|%d|%v|%v|%d|%d|%v|%v", s.From, s.In.T, s.In.ID, s.In.DataLen, s.In.ES, s.In.EH, len(s.ToC), len(s.ToS), s.SnapC, s.SnapS)
+			if !m.seen[sig] {
+				m.seen[sig] = true
+				m.NonTriv++
+			}
+		}
 		for _, sn := range []Snap{s.SnapC, s.SnapS} {
 			for _, st := range sn.Streams {
 				if len(st.Queue) > 0 {
@@ -186,7 +215,7 @@ func MainOpt(propWhy string, withPreface bool) {
 		if count == 0 {
 			count = 300
 			if *tier == "thorough" {
-				count = 4000
+				count = 3000
 			}
 		}
 		r := rng.New(*seed)
